@@ -1,0 +1,83 @@
+// Copyright 2024 Kelvin Clement Mwinuka
+//
+// Licensed under the Apache License, Version 2.0 (the "License");
+// you may not use this file except in compliance with the License.
+// You may obtain a copy of the License at
+//
+//      http://www.apache.org/licenses/LICENSE-2.0
+//
+// Unless required by applicable law or agreed to in writing, software
+// distributed under the License is distributed on an "AS IS" BASIS,
+// WITHOUT WARRANTIES OR CONDITIONS OF ANY KIND, either express or implied.
+// See the License for the specific language governing permissions and
+// limitations under the License.
+
+package sugardb
+
+import (
+	"context"
+	"strconv"
+	"strings"
+	"time"
+
+	"github.com/echovault/sugardb/internal"
+)
+
+// aofLogEntry returns what has to be written to the append-only log for a write command that has just
+// been executed successfully, so that replaying the log reproduces the effect the command had:
+//   - an expiry given relative to the time of execution (EXPIRE, PEXPIRE, SET ... EX|PX, GETEX ... EX|PX)
+//     is logged with the absolute expiry time it resulted in, because the log is replayed at another time;
+//   - SPOP removes random members, so the removal of the members it actually popped is logged.
+//
+// Every other command is logged as it was received. A nil result means there is nothing to log.
+func (server *SugarDB) aofLogEntry(ctx context.Context, cmd []string, res []byte, message []byte) []byte {
+	if len(cmd) < 2 {
+		return message
+	}
+	key := cmd[1]
+
+	// absoluteExpiry returns the expiry time the key has now, in unix milliseconds.
+	absoluteExpiry := func() (string, bool) {
+		expireAt := server.getExpiry(ctx, key)
+		if expireAt == (time.Time{}) {
+			return "", false
+		}
+		return strconv.FormatInt(expireAt.UnixMilli(), 10), true
+	}
+
+	switch strings.ToLower(cmd[0]) {
+	case "expire", "pexpire":
+		// ":0" means that the expiry was not changed: replaying the command at a later time could change it.
+		if string(res) != ":1\r\n" {
+			return nil
+		}
+		if at, ok := absoluteExpiry(); ok {
+			return internal.EncodeCommand([]string{"PEXPIREAT", key, at})
+		}
+		return message
+
+	case "set", "getex":
+		for i := 2; i < len(cmd)-1; i++ {
+			if strings.EqualFold(cmd[i], "ex") || strings.EqualFold(cmd[i], "px") {
+				at, ok := absoluteExpiry()
+				if !ok {
+					return message
+				}
+				entry := append([]string{}, cmd...)
+				entry[i], entry[i+1] = "PXAT", at
+				return internal.EncodeCommand(entry)
+			}
+		}
+		return message
+
+	case "spop":
+		// The response is the array of the members that were popped.
+		popped, err := internal.Decode(res)
+		if err != nil || len(popped) == 0 {
+			return nil
+		}
+		return internal.EncodeCommand(append([]string{"SREM", key}, popped...))
+	}
+
+	return message
+}
